@@ -24,6 +24,11 @@ func main() {
 		fmt.Fprintln(os.Stderr, "usage: bus <property> [flags]")
 		os.Exit(2)
 	}
+	if os.Args[1] == "serve" {
+		log.SetOutput(ioutil.Discard)
+		serveMain(os.Args[2:])
+		return
+	}
 	f, ok := engines[os.Args[1]]
 	if !ok {
 		fmt.Fprintln(os.Stderr, "unknown property", os.Args[1])
